@@ -19,7 +19,9 @@ RULE = ('makerandCIJ_und(n,K) n in {3,4} all K; makerandCIJ_dir(3,K) all K; make
         'maketoeplitzCIJ(4,K,s) one draw; makerandCIJdegreesfixed: every realisable pair of degree sequences on 3-4 nodes '
         'with total <= 5 (quick) / 6 (thorough); ALL generator answers per configuration; non-trivial = configuration with >= 2 '
         'distinct outputs; additionally makeringlatticeCIJ n=5..8 (every K), makerandCIJ_dir n=4,5, makerandCIJ_und n=5,6, makeevenCIJ n=8 '
-        'over a fixed subset of 2n+2 structured orders of their (too large) permutation menus - exhaustive over the parameters only')
+        'over a fixed subset of 2n+2 structured orders of their (too large) permutation menus - exhaustive over the parameters only; '
+        'and large sizes (makerandCIJ_und up to 1500 nodes, makerandCIJ_dir 1100, ring lattice 301, makeevenCIJ 128, makefractalCIJ 128) under the four '
+        'answer strategies of bctmc/structured.py (lowest / highest / spread / alternating answers)')
 ASSUMPTIONS = ['a uniform draw compared with a probability p is represented by the points 0.0 and 0.999999: both outcomes '
                'for 0<p<1, the only possible outcome for p<=0 or p>=1',
                'makerandCIJdegreesfixed may give up with BCTParamError (documented heuristic); only returned matrices are judged',
@@ -97,6 +99,65 @@ def catalogue(thorough):
     return cfgs
 
 
+# large sizes (a size-triggered branch may sit far beyond the enumerable menus): every answer strategy of
+# bctmc/structured.py; only routines without a rejection loop
+LARGE = [('makerandCIJ_und', (60, 100)), ('makerandCIJ_und', (300, 2000)), ('makerandCIJ_und', (1500, 6000)),
+         ('makerandCIJ_dir', (60, 200)), ('makerandCIJ_dir', (1100, 8000)),
+         ('makeringlatticeCIJ', (100, 450)), ('makeringlatticeCIJ', (301, 1500)),
+         ('makeevenCIJ', (64, 500, 3)), ('makeevenCIJ', (128, 3000, 2)),
+         ('makefractalCIJ', (6, 2, 2)), ('makefractalCIJ', (7, 1.5, 3))]
+
+
+def work_large(fn, args):
+    from bctmc.structured import StructuredRandomState, STRATEGIES
+    from bctmc.runner import guarded
+    t = Tally(PROPERTY)
+    for strat in STRATEGIES:
+        case = {'config': {'fn': fn, 'args': list(args)}, 'answer_strategy': strat}
+        with quiet():
+            st, value = guarded(getattr(bct, fn), *args, seed=StructuredRandomState(strat), _timeout=300)
+        t.c['evaluations'] += 1
+        t.c['large_size_executions'] += 1
+        if st != 'ok':
+            t.viol(fn, 'raises' if st == 'exc' else 'does_not_terminate', case, observed=value)
+            continue
+        reported = None
+        if fn == 'makefractalCIJ':
+            value, reported = value
+        M = np.asarray(value, dtype=float)
+        n = 2 ** args[0] if fn == 'makefractalCIJ' else args[0]
+        cnt = int(np.count_nonzero(M))
+        if M.shape != (n, n):
+            t.viol(fn, 'shape', case, observed=M.shape, expected=(n, n))
+            continue
+        if not np.all((M == 0) | (M == 1)):
+            t.viol(fn, 'entries_0_1', case, observed=float(np.max(np.abs(M))))
+        if np.any(np.diag(M) != 0):
+            t.viol(fn, 'empty_diagonal', case, observed=int(np.count_nonzero(np.diag(M))))
+        if fn == 'makerandCIJ_und':
+            if not np.array_equal(M, M.T):
+                t.viol(fn, 'symmetric', case)
+            if cnt != 2 * args[1]:
+                t.viol(fn, 'exactly_K_connections', case, observed=cnt // 2, expected=args[1])
+        elif fn in ('makerandCIJ_dir', 'makeringlatticeCIJ'):
+            if cnt != args[1]:
+                t.viol(fn, 'exactly_K_connections', case, observed=cnt, expected=args[1])
+        elif fn == 'makeevenCIJ':
+            if cnt != args[1]:
+                t.viol(fn, 'exactly_K_connections', case, observed=cnt, expected=args[1])
+        elif fn == 'makefractalCIJ':
+            if reported != cnt:
+                t.viol(fn, 'reported_count', case, observed=reported, expected=cnt)
+        if fn == 'makeringlatticeCIJ':
+            i, j = np.indices((n, n))
+            d = np.minimum(np.abs(i - j), n - np.abs(i - j))
+            fill = [(int(np.count_nonzero(M[d == k])), int(np.count_nonzero(d == k))) for k in range(1, n // 2 + 1)]
+            used = [k for k, (a, b) in enumerate(fill) if a > 0]
+            if used and any(fill[k][0] != fill[k][1] for k in range(used[-1])):
+                t.viol(fn, 'nearer_bands_full_first', case, observed=fill[:used[-1] + 1])
+    return t
+
+
 def plan(ctx):
     cf = catalogue(ctx.thorough)
     heavy = [c for c in cf if len(c) == 2 and (c[0] in ('makefractalCIJ', 'maketoeplitzCIJ', 'makeringlatticeCIJ') or
@@ -105,6 +166,7 @@ def plan(ctx):
     units = [[c] for c in heavy]
     for k in range(0, len(light), 12):
         units.append(light[k:k + 12])
+    units += [[('__large__', c)] for c in LARGE]
     return units
 
 
@@ -248,7 +310,10 @@ def explore(fn, args, mode=None):
 def work(unit):
     t = Tally(PROPERTY)
     for c in unit:
-        t.merge(explore(*c))
+        if c[0] == '__large__':
+            t.merge(work_large(*c[1]))
+        else:
+            t.merge(explore(*c))
     return t
 
 
@@ -262,6 +327,8 @@ def replay(rec):
     t = Tally(PROPERTY)
     case = rec['case']
     fn, args = case['config']['fn'], case['config']['args']
+    if 'answer_strategy' in case:
+        return work_large(fn, tuple(args))
     call = make_call(fn, args)
     with quiet():
         status, value, _ = replay_answers(call, case['answers'], vec_unit_points=(0.0, 0.999999))
